@@ -81,6 +81,13 @@ func runOne(p *Property, tier string, cfg BuildCfg, control *Control) (res *SubR
 			return
 		}
 		s = s[:idx] + control.New + s[idx+len(control.Old):]
+		if control.Old2 != "" {
+			if !strings.Contains(s, control.Old2) {
+				res.Skipped = "control patch does not apply (second text not found)"
+				return
+			}
+			s = strings.Replace(s, control.Old2, control.New2, 1)
+		}
 		overlay = map[string][]byte{path: []byte(s)}
 	}
 	c, err := Load(cfg, overlay)
@@ -410,25 +417,25 @@ func runProperty(p *Property, o Options) int {
 	}
 	self, _ := os.Executable()
 	coverage := map[string]any{
-		"explanation":          p.Explanation,
-		"obligations":          nObl,
-		"discharged":           nDis,
-		"known_findings":       nKnown,
-		"violated":             nViol,
-		"undecided":            len(undecided),
-		"samples":              samples,
-		"rules":                rulesOut,
-		"configurations":       cfgNames,
-		"counters":             counters,
-		"notes":                notes,
-		"exhaustive":           true,
-		"rule":                 "obligations are enumerated from the type-checked program of /repo's working tree; one obligation per rule instance (rule id + semantic construct), all instances enumerated",
-		"evaluations":          nObl,
-		"distinct_nontrivial":  len(order),
-		"controls":             ctlReport,
-		"undecided_reasons":    undecided,
-		"checker_cmd":          fmt.Sprintf("%s -prop %s -tier %s", self, p.ID, o.Tier),
-		"trusted_base":         append([]string{"go/types type checking and method sets", "golang.org/x/tools v0.29.0 go/ssa, go/cfg, callgraph (cha, vta)"}, p.TrustedBase...),
+		"explanation":         p.Explanation,
+		"obligations":         nObl,
+		"discharged":          nDis,
+		"known_findings":      nKnown,
+		"violated":            nViol,
+		"undecided":           len(undecided),
+		"samples":             samples,
+		"rules":               rulesOut,
+		"configurations":      cfgNames,
+		"counters":            counters,
+		"notes":               notes,
+		"exhaustive":          true,
+		"rule":                "obligations are enumerated from the type-checked program of /repo's working tree; one obligation per rule instance (rule id + semantic construct), all instances enumerated",
+		"evaluations":         nObl,
+		"distinct_nontrivial": len(order),
+		"controls":            ctlReport,
+		"undecided_reasons":   undecided,
+		"checker_cmd":         fmt.Sprintf("%s -prop %s -tier %s", self, p.ID, o.Tier),
+		"trusted_base":        append([]string{"go/types type checking and method sets", "golang.org/x/tools v0.29.0 go/ssa, go/cfg, callgraph (cha, vta)"}, p.TrustedBase...),
 	}
 	level := p.Level
 	if nKnown > 0 && level == "proof" {
